@@ -63,7 +63,14 @@ def load_variants():
                          "patch": os.path.join(d, "patch.diff"), "expect": ""})
     for meta_path in sorted(glob.glob(os.path.join(VERIF, "benign", "*", "meta.json"))):
         d = os.path.dirname(meta_path)
-        variants.append({"id": "benign:" + os.path.basename(d), "kind": "benign", "props": ["*"], "patch": os.path.join(d, "patch.diff")})
+        try:
+            bmeta = json.load(open(meta_path))
+        except Exception:
+            bmeta = {}
+        # a refactoring outside the canonical form may leave a check unable to decide (exit 2, no VIOLATION line); the cases
+        # known today are recorded in the patch's meta.json -- a VIOLATION (exit 1) on a benign patch is always a failure
+        variants.append({"id": "benign:" + os.path.basename(d), "kind": "benign", "props": ["*"], "patch": os.path.join(d, "patch.diff"),
+                         "may_not_evaluate": bmeta.get("analysis_errors_now", [])})
     return variants
 
 
@@ -127,6 +134,8 @@ def judge(variant, res):
             elif variant.get("expect") and variant["expect"] not in out:
                 fails.append("%s: %s fired but did not name rule %s" % (variant["id"], pid, variant["expect"]))
         else:
+            if rc == 2 and pid in variant.get("may_not_evaluate", []):
+                continue
             if rc != 0:
                 lines = [l for l in out.splitlines() if l.startswith("  ") or l.startswith("ANALYSIS")]
                 fails.append("%s: benign refactoring raised an alarm in %s (rc=%d): %s" % (variant["id"], pid, rc, lines[:2]))
